@@ -130,7 +130,12 @@ def oracle(case: dict) -> Outcome:
             if ok and len(r) != 0:
                 out.fail("C15.v.empty", f"{name}: empty range yields blocks", observed=[tuple(t.shape) for t in r])
         return out
-    if step == 1:
+    if case.get("virtual"):
+        # the original tensor is never materialised: only the shard (the elements start..end-1 of a tensor with billions of elements) exists,
+        # as it does on a real rank; element values are positions relative to the shard start
+        buf = torch.arange(-off, (end - start) + 3 - off, dtype=torch.float64).to(dtype)
+        shard = buf.narrow(0, off, end - start)
+    elif step == 1:
         base = torch.arange(-off, numel + 3 - off, dtype=torch.float64).to(dtype) if off else torch.arange(0, numel + 3, dtype=torch.float64).to(dtype)
         # shard holds the values start..end-1 (exactly representable for the sizes used) and sits at storage offset off+start
         shard = base.narrow(0, off + start, end - start) if off else base.narrow(0, start, end - start)
@@ -320,6 +325,38 @@ def enumerate_huge(tier: str, i: int, n: int) -> Iterator[dict]:
                 yield {"shape": shape, "start": start, "end": m * s_, "offset": 0, "dtype": "f32", "stride": 1, "huge": True}
 
 
+def strategy_virtual():
+    """Shapes whose element counts / trailing products pass 2^31 .. 2^40 (never materialised) with ranges of at most ~200k elements placed around
+    slab boundaries of every level: index arithmetic beyond 32-bit integers and beyond float64's exact integers is not reachable with real tensors."""
+    from hypothesis import strategies as st
+
+    @st.composite
+    def cases(draw: Any) -> dict:
+        order = draw(st.integers(2, 5))
+        shape = [draw(st.sampled_from([2, 3, 3, 5, 7])) for _ in range(order)]
+        # blow up one or two dimensions so that prod(shape[1:]) crosses 2^31 .. 2^40
+        big = draw(st.sampled_from([70000, 65536, 2**20 + 1, 1560 * 40, 46341, 2**16 + 3]))
+        pos = draw(st.integers(0, order - 1))
+        shape[pos] = big
+        if draw(st.booleans()):
+            pos2 = draw(st.integers(0, order - 1))
+            shape[pos2] = max(shape[pos2], draw(st.sampled_from([40000, 2**15, 52 * 30 * 40])))
+        numel = math.prod(shape)
+        # a boundary of some level, far into the tensor
+        d = draw(st.integers(0, order - 1))
+        slab = math.prod(shape[d + 1:])
+        nsl = numel // slab
+        m = draw(st.one_of(st.integers(1, max(1, nsl - 1)), st.sampled_from([1, max(1, nsl // 2), max(1, nsl - 1)])))
+        boundary = min(numel, m * slab)
+        length = draw(st.integers(1, 200000))
+        a = draw(st.integers(0, length))
+        start = max(0, boundary - a)
+        end = min(numel, start + length)
+        return {"shape": shape, "start": start, "end": end, "offset": draw(st.integers(0, 2)), "stride": 1, "dtype": "f32", "virtual": True}
+
+    return cases()
+
+
 def strategy():
     from hypothesis import strategies as st
 
@@ -368,6 +405,7 @@ def strategy_reject():
 STREAMS = {
     "exhaustive": Stream("exhaustive", oracle=oracle, enumerate=enumerate_cases, exhaustive=True, shards_quick=16, shards_thorough=16),
     "huge_boundaries": Stream("huge_boundaries", oracle=oracle, enumerate=enumerate_huge, exhaustive=True, shards_quick=16, shards_thorough=16),
+    "virtual_huge": Stream("virtual_huge", oracle=oracle, strategy=strategy_virtual, quick=600, thorough=12000, shards_quick=8, shards_thorough=16),
     "random": Stream("random", oracle=oracle, strategy=strategy, quick=4000, thorough=60000, shards_quick=8, shards_thorough=16),
     "reject": Stream("reject", oracle=oracle_reject, strategy=strategy_reject, quick=200, thorough=2000, shards_quick=1, shards_thorough=2),
 }
